@@ -83,6 +83,10 @@ class SimLoop(base_events.BaseEventLoop):
         self.set_exception_handler(self._sim_exception_handler)
         self._task_counter = 0
         self.set_task_factory(self._sim_task_factory)
+        # stall of the process under test (see stall())
+        self._stall_until = 0.0
+        self._stall_k = 0
+        self.client_labels = {"tcp_s2c", "tcp_lost", "udp_c", "udp_c_dup", "op", "sample", "readd", "cross", "tg"}
 
     # -- deterministic task names (default names use a process-global counter)
     def _sim_task_factory(self, loop, coro, **kwargs):
@@ -99,12 +103,42 @@ class SimLoop(base_events.BaseEventLoop):
     def elapsed(self) -> float:
         return self._now - self._start
 
+    # -- stall: the process that owns this loop makes no progress for `d` seconds
+    def stall(self, d: float) -> float:
+        """Slow / stalled node (a blocking call in a callback, a GC pause, a suspended VM): the timers of the process under test
+        and the I/O and user events addressed to it are served only when the pause ends - all of them then, in their
+        original order - while its peers (events not labelled as client-side) go on as scheduled.  Returns the end time."""
+        end = max(self._stall_until, self._now + d)
+        self._stall_until = end
+        moved = sorted((h for h in self._scheduled if h._when < end and not h._cancelled), key=lambda h: h._when)
+        for h in moved:
+            self._stall_k += 1
+            h._when = end + self._stall_k * 1e-12
+        heapq.heapify(self._scheduled)
+        touched = False
+        for ev in self._ext:
+            if ev.label in self.client_labels and ev.when < end and not ev.cancelled:
+                ev.when = end
+                touched = True
+        if touched:
+            heapq.heapify(self._ext)
+        return end
+
+    def call_at(self, when, callback, *args, context=None):
+        if when < self._stall_until and self._now < self._stall_until:
+            # a timer armed by code that still ran in the iteration the stall began in
+            self._stall_k += 1
+            when = self._stall_until + self._stall_k * 1e-12
+        return super().call_at(when, callback, *args, context=context)
+
     # -- external events
     def at(self, when: float, fn: Callable[[], None], *, sock: Any = None,
            iters: int = 0, label: str = "") -> _ExtEvent:
         """Run `fn` as an I/O-style event at virtual time `when` (not before)."""
         if when < self._now:
             when = self._now
+        if when < self._stall_until and label in self.client_labels:
+            when = self._stall_until
         self._ext_seq += 1
         ev = _ExtEvent(when, self.iteration + iters, self._ext_seq, fn, sock, label)
         heapq.heappush(self._ext, ev)
